@@ -173,6 +173,22 @@ def run_for_property(prop: str, seed: int = 0) -> int:
                 auto_fail.append(f"{op}: kill ratio {ratio:.2f} below {automutate.FLOORS.get(op, 1.0)} (survivors: {d['survivors'][:5]})")
     except Exception as e:
         auto_fail.append(f"automutate crashed: {e!r}")
+    # behaviour-preserving rewrites (rename locals / parameters, named return values, flipped ifs, debug logging) must stay silent
+    try:
+        from . import robust
+        t2 = time.time()
+        n_eff, rbad = robust.run([prop])
+        ev = json.loads(evp.read_text())
+        ev["coverage"]["selftest"]["behaviour_preserving_rewrites"] = {
+            "operators": list(robust.OPS) + ["rename-params"], "granularity": "one variant per operator and module",
+            "effective_variants": n_eff, "variants_with_reports": [f"{op} {m}: {[(o[1], o[2]) for o in u]}" for op, m, fn, sites, u in rbad]}
+        ev["wall_s"] = round(ev.get("wall_s", 0) + time.time() - t2, 3)
+        evp.write_text(json.dumps(ev, indent=1))
+        print(f"[{prop}] behaviour-preserving rewrites: {n_eff} variants, {len(rbad)} with reports")
+        for op, m, fn, sites, u in rbad:
+            auto_fail.append(f"benign rewrite {op} of {m} is reported: {u[:3]}")
+    except Exception as e:
+        auto_fail.append(f"robustness probe crashed: {e!r}")
     for a in auto_fail:
         print(f"ANALYSIS-ERROR property={prop} self-test {a}")
     if auto_fail:
